@@ -23,6 +23,7 @@ REQUIRED_COUNTERS = ["c11_forwards", "c11_step_rows", "c11_forced_steps", "c11_p
 MIN_NONTRIVIAL = {"quick": 900, "thorough": 8000}
 WORKERS = {"quick": 14, "thorough": 16}
 BUDGET_S = {"quick": 500, "thorough": 3000}
+THOROUGH_ROUNDS = 3
 
 COMBOS = (
     [("am", e, {}) for e in ("tsp", "cvrp", "cvrptw", "sdvrp", "svrp", "op", "pctsp", "spctsp", "pdp", "mtsp", "mtvrp", "mdcpdp", "smtwtp")]
